@@ -266,7 +266,7 @@ def skeleton_source(nmax, kmax):
         raise Undecided("decasteljau: function head not found after extraction")
     body = body.replace(head, head + CONTRACT)
     src = ("#define NMAX %dul\n#define KMAX %du\n" % (nmax, kmax) + PRELUDE + NSEG_DECL + body +
-           "\nvoid h_dc(void) { unsigned int d, k; _Bool c; decasteljau(d, k, c); }\n")
+           "\nvoid h_dc(void) { unsigned int d, k; _Bool c; unsigned long n; N = n; thrown = 0; decasteljau(d, k, c); }\n")
     return src, fired
 
 
@@ -290,7 +290,7 @@ def run_skeleton(rep, nmax, kmax, timeout=900):
         def last(pat):
             m = re.findall(pat, tr)
             return int(m[-1]) if m else None
-        cex = {"N": last(r"\bN=(\d+)"), "degree": last(r"\bd=(\d+)u?"), "k": last(r"\bk=(\d+)u?"),
+        cex = {"N": last(r"\bn=(\d+)"), "degree": last(r"\bd=(\d+)u?"), "k": last(r"\bk=(\d+)u?"),
                "closed": last(r"\bc=(TRUE|FALSE|\d+)") if False else None}
         mc = re.findall(r"\bc=(TRUE|FALSE)", tr)
         closed = (mc[-1] == "TRUE") if mc else False
